@@ -301,10 +301,68 @@ func (r ImportReplacer) Replace(d data.Data, cl Changelog, f *ast.File) (string,
 		return "", err
 	}
 
+	first := len(f.Imports) == 0
 	if !astutil.AddNamedImport(r.Fset, f, name, r.Path) {
 		return "", nil
 	}
+	if first {
+		placeFirstImport(r.Fset, f)
+	}
 	return pkgName, nil
+}
+
+// placeFirstImport gives the import declaration that astutil.AddNamedImport
+// made for a file without imports its place: the line after the package
+// clause and the comments tied to it, those on its line and those on the
+// lines directly below.
+//
+// astutil puts the declaration at the position of the "package" keyword, or
+// two characters behind a comment on that line. The first is in front of
+// the comments below the clause, which then count as lying between the
+// import and the next declaration; the second is where the doc comment of
+// the first declaration begins, if a blank line is all that separates the
+// two, and the comment is printed behind the import.
+func placeFirstImport(fset *token.FileSet, f *ast.File) {
+	if len(f.Decls) == 0 {
+		return
+	}
+	decl, ok := f.Decls[0].(*ast.GenDecl)
+	if !ok || decl.Tok != token.IMPORT || len(decl.Specs) != 1 {
+		return
+	}
+	file := fset.File(f.Package)
+	if file == nil {
+		return
+	}
+	line := func(p token.Pos) int { return file.PositionFor(p, false).Line }
+
+	end := f.Name.End()
+	next := token.Pos(file.Base() + file.Size())
+	if len(f.Decls) > 1 {
+		next = f.Decls[1].Pos()
+	}
+	for _, cg := range f.Comments {
+		if len(cg.List) == 0 || cg.Pos() < end {
+			continue
+		}
+		if cg.Pos() >= next || line(cg.Pos()) > line(end)+1 {
+			break
+		}
+		end = cg.End()
+	}
+
+	pos := end + 1
+	if pos > next {
+		pos = next
+	}
+	decl.TokPos = pos
+	if spec, ok := decl.Specs[0].(*ast.ImportSpec); ok {
+		if spec.Name != nil {
+			spec.Name.NamePos = pos
+		}
+		spec.Path.ValuePos = pos
+		spec.EndPos = pos
+	}
 }
 
 // names reports the name under which the import is written into the file,
